@@ -1,7 +1,7 @@
 SPECIFICATION Spec
 CONSTANTS
   NStmt = 3
-  Patterns <- PatThorough
+  Patterns <- PatQuick
   TailPatterns <- TailThorough
   LeadModes <- LeadAll
   TrailModes <- TrailAll
